@@ -556,6 +556,35 @@ def gate_semantics(ast, path, stmts, env_names, limited_name, notfinished):
     return True, ""
 
 
+def forward_only(body, e, pcn, depth=0):
+    """Is the value of e certainly >= the program counter `pcn` (so that `pc = e` cannot be a back edge)?  True for `pc`, `v`, `e + k`
+    (k a non-negative literal) where v is a local initialised from such a value whose only other writes are `v += k`."""
+    e = strip_paren(e)
+    if depth > 3:
+        return False
+    if e["t"] == "Binary" and e["op"] == "+" and int_lit(e["right"]) is not None and int_lit(e["right"]) >= 0:
+        return forward_only(body, e["left"], pcn, depth + 1)
+    n = path_name(e)
+    if n is None:
+        return False
+    if n == pcn:
+        return True
+    inits = [l for l in walk_t(body, "Local") if l["pat"]["t"] == "PIdent" and l["pat"]["name"] == n]
+    if len(inits) != 1 or inits[0].get("init") is None or not forward_only(body, inits[0]["init"], pcn, depth + 1):
+        return False
+    for a_ in walk_t(body, "Assign"):
+        if path_name(strip_paren(a_["left"])) == n:
+            return False
+    for b_ in walk_t(body, "Binary"):
+        if b_["op"].endswith("=") and b_["op"] not in ("==", "!=", "<=", ">=") and path_name(strip_paren(b_["left"])) == n:
+            if not (b_["op"] == "+=" and int_lit(b_["right"]) is not None and int_lit(b_["right"]) >= 0):
+                return False
+    for r_ in walk_t(body, "Reference"):
+        if r_.get("mut") and path_name(strip_paren(r_["expr"])) == n:
+            return False
+    return True
+
+
 def limited_block(e, names=("LIMITED", "limited")):
     e = strip_paren(e)
     return e["t"] == "If" and e["else"] is None and path_name(strip_paren(e["cond"])) in names
@@ -612,7 +641,7 @@ def run_lim(res, ast, with_jit=True):
                 if a is arm:
                     continue
                 for x in walk_t(a["body"], "Assign"):
-                    if path_name(x["left"]) == pcn:
+                    if path_name(x["left"]) == pcn and not forward_only(f["node"]["body"], x["right"], pcn):
                         back.append(x)
         res.check(not back, "LIM-BACKEDGE", f"{INPLACE}|execute_in|other-jumps", w,
                   "`pc` is assigned outside the `]` arm: a second back edge without budget gate")
@@ -632,18 +661,31 @@ def run_lim(res, ast, with_jit=True):
                 res.bad("LIM-BACKEDGE", key, where(IRINT, f["node"], "execute_block"), f"no arm for {vn}")
                 continue
             a = arms[vn]
-            body = strip_paren(a["body"])["block"]["stmts"]
-            ctl = [s["expr"] for s in body if s["t"] == "ExprStmt" and s["expr"]["t"] == kind]
             w = where(IRINT, a, "execute_block")
-            if len(ctl) != 1 or len(body) != 1:
-                res.bad("LIM-BACKEDGE", key, w, f"{vn} arm is not a single `{kind.lower()}` statement (fail closed)")
+            ab = strip_paren(a["body"])
+            # the statement list that directly contains the nested execute_block call (wherever the arm nests it)
+            holder = []
+            for blk in walk_t(ab, "Block"):
+                for i_, s_ in enumerate(blk["stmts"]):
+                    direct = [c for c in walk_t(s_, "Call") if path_name(strip_paren(c["func"])) == "execute_block"]
+                    nested = any(any(path_name(strip_paren(c["func"])) == "execute_block" for c in walk_t(b2, "Call")) for b2 in walk_t(s_, "Block"))
+                    if direct and not nested:
+                        holder.append((blk, i_))
+            if len(holder) != 1:
+                res.bad("LIM-BACKEDGE", key, w, f"{vn}: expected exactly one nested execute_block call in the arm, found {len(holder)}")
                 continue
-            inner = (ctl[0]["body"] if kind == "While" else ctl[0]["then"])["stmts"]
-            rec = [i for i, s in enumerate(inner) if any(path_name(strip_paren(c["func"])) == "execute_block" for c in walk_t(s, "Call"))]
+            inner, at = holder[0][0]["stmts"], holder[0][1]
+            rec = [at]
+            if kind == "While":
+                # the call must sit directly in the body of the loop statement (every iteration reaches the gate)
+                lps = [l for l in walk_t(ab, "While", "Loop") if l["body"] is holder[0][0]]
+                if len(lps) != 1:
+                    res.bad("LIM-BACKEDGE", key, w, f"{vn}: the nested block is not executed directly in the body of the loop statement (fail closed)")
+                    continue
             gens = [g["name"] for g in f["node"]["sig"]["generics"]["params"] if g["t"] == "ConstParam"]
             limn = gens[0] if gens else "LIMITED"
             if len(rec) != 1:
-                res.bad("LIM-BACKEDGE", key, w, f"{vn}: expected exactly one nested execute_block call in the {kind.lower()} body")
+                res.bad("LIM-BACKEDGE", key, w, f"{vn}: expected exactly one nested execute_block call")
                 continue
             after = inner[rec[0] + 1:]
             ps_ = [p_["pat"]["name"] for p_ in f["node"]["sig"]["inputs"] if p_["t"] == "Arg" and p_["pat"]["t"] == "PIdent"]
@@ -860,6 +902,35 @@ MODE_MAP = {"execute": ("false", "true"), "execute_limited": ("true", "true"), "
 
 def run_mode_map(res, ast, rule):
     """execute -> (limited=false, safe=true), execute_limited -> (true, true), execute_unsafe -> (false, false)."""
+    import trace as tr
+
+    class Stop(Exception):
+        pass
+
+    class ModeInterp(tr.TraceInterp):
+        """follows the private glue of the executor until the mode-consuming call (code generation) is reached"""
+        sinks = ()
+
+        def follow(self, fn, args, recv=None):
+            # only the glue that carries the mode flags is followed; everything else is opaque
+            if not any(isinstance(a_, bool) for a_ in args):
+                return tr.Sym("opaque:" + fn["name"], tuple(args))
+            return super().follow(fn, args, recv)
+
+        def method(self, recv, name, targs, args, node):
+            if name in self.sinks:
+                self.hit = (name, args)
+                self.hit_recv = recv
+                raise Stop()
+            return super().method(recv, name, targs, args, node)
+
+        def call(self, name, targs, args, node):
+            if tr.norm_name(name) in self.sinks or tr.norm_name(name).split("::")[-1] in self.sinks:
+                self.hit = (name, args)
+                raise Stop()
+            return super().call(name, targs, args, node)
+
+    SINKS = {"BcInterpreter": ("build_threaded_code",), "BaseJitCompiler": ("compile_program",), "LlvmJitCompiler": ("CodeGen::create", "compile_program")}
     for path, ty in ((BCMOD, "BcInterpreter"), (BASEJIT, "BaseJitCompiler")) + (((LLVM, "LlvmJitCompiler"),) if ast.has(LLVM) else ()):
         res.files.add(path)
         for name, (lim, safe) in MODE_MAP.items():
@@ -868,12 +939,37 @@ def run_mode_map(res, ast, rule):
             if len(fs) != 1:
                 res.bad(rule, key, path, f"{ty}::{name}: expected exactly one definition, found {len(fs)}")
                 continue
-            calls = [m for m in walk_t(fs[0]["node"]["body"], "MethodCall") if m["method"] == "execute_in"]
-            good = len(calls) == 1 and len(calls[0]["args"]) == 3 and \
-                [ast.src1(path, a) for a in calls[0]["args"][1:]] == [lim, safe]
-            res.check(good, rule, key, where(path, fs[0]["node"], f"{ty}::{name}"),
-                      f"{ty}::{name} must call execute_in(context, {lim}, {safe}); found "
-                      f"{[ast.src1(path, c) for c in calls]}")
+            it = ModeInterp(ast, path)
+            it.sinks = SINKS[ty]
+            it.hit = None
+            it.hit_recv = tr.Sym("self")
+            # only the methods of this type are followed
+            it.fns = {k: [n for n in v if any(fr["node"] is n and ty in fr["container"] for fr in ast.find_fns(path, k))] for k, v in it.fns.items()}
+            it.fns = {k: v for k, v in it.fns.items() if v and k not in it.sinks}
+            env = tr.Env()
+            env.bind("self", tr.Sym("self"))
+            for p_ in fs[0]["node"]["sig"]["inputs"]:
+                if p_["t"] == "Arg" and p_["pat"]["t"] == "PIdent":
+                    env.bind(p_["pat"]["name"], tr.Sym("param:" + p_["pat"]["name"]))
+            why = None
+            try:
+                it.exec_block(fs[0]["node"]["body"], env)
+                why = "no code generation call is reached"
+            except Stop:
+                pass
+            except tr.ReturnEx:
+                why = "returns before any code generation call"
+            except (tr.Unanalysable, tr.Reached, tr.ExitEx, KeyError, TypeError) as u_:
+                why = f"cannot be analysed (fail closed): {u_}"
+            good = False
+            if why is None:
+                flags = [a_ for a_ in it.hit[1] if isinstance(a_, bool)]
+                want = [lim == "true", safe == "true"]
+                good = flags == want and list(it.hit[1])[-2:] == want
+                why = f"generates code with (limited, safe) = {flags}, must be {want}"
+                if good and getattr(it, "hit_recv", tr.Sym("self")) != tr.Sym("self") and not any(a_ == tr.Sym("self") for a_ in it.hit[1]):
+                    good, why = False, f"the code is not generated from `self` (receiver {it.hit_recv!r})"
+            res.check(good, rule, key, where(path, fs[0]["node"], f"{ty}::{name}"), f"{ty}::{name}: {why}")
     # const-generic interpreters
     for path, fnname, ty in ((INPLACE, "execute_in", "InplaceInterpreter"), (IRINT, "execute_block", "IrInterpreter")):
         for name, flag in (("execute", "false"), ("execute_limited", "true")):
